@@ -8,12 +8,25 @@ def nontrivial(tok, res):
         return res.startswith("acc:") or res == "407"
     if tok[0] in ("mw", "pl", "plc", "wq", "s5"):
         return True
+    if tok[0] == "h2c":
+        return res.startswith(("fwd:", "pri", "401"))
+    if tok[0] == "tconn":
+        return res.startswith("acc:") or res == "407"
+    if tok[0] == "tpx":
+        return res in ("ok", "conflict")
+    if tok[0] == "tview":
+        return res != "-"
     if tok[0] == "wflush":
         return res != "-"
     return False
 
 
 def result_class(r):
+    if ";" in r:   # h2c: class of the opening request; set of stream classes
+        first, _, ss = r.partition(";")
+        return first.split(":")[0] + ";" + "+".join(sorted({t.split(":")[0] for t in ss.split(",")}))
+    if r.startswith("x") and len(r) > 12:   # tview: number of listeners
+        return "n=%d" % (r.count(",") + 1)
     toks = r.split(",")
     if all(len(t) == 4 and t[:3].isdigit() for t in toks):   # web ops: the set of status codes of the requests
         return "+".join(sorted({t[:3] for t in toks}))
@@ -44,9 +57,20 @@ PROP = {
         "Frp.C07.staticFile_method", "Frp.C07.dashboard_sound", "Frp.C07.admin_sound",
         "Frp.C07.webHoldsOn_sound", "Frp.C07.model_webHoldsOn", "Frp.C07.mwHoldsOn_sound", "Frp.C07.model_mwHoldsOn",
         "Frp.C07.socks5_sound", "Frp.C07.socks5_refuses", "Frp.C07.s5HoldsOn_sound", "Frp.C07.model_s5HoldsOn",
+        # h2c: every stream of an upgraded / prior-knowledge connection is a request of its own (Props/C07Conn.lean)
+        "Frp.C07.h2cConn_first_sound", "Frp.C07.h2cStream_checked_sound", "Frp.C07.h2cStream_checked_same_route",
+        "Frp.C07.h2cConn_checked_sound", "Frp.C07.h2cConn_head_streams", "Frp.C07.h2cConn_head_partial",
+        "Frp.C07.h2cHead_witness", "Frp.C07.h2cHeadFull_fails", "Frp.C07.h2cHead_misroute_witness",
+        "Frp.C07.streamHoldsOn_sound", "Frp.C07.h2cHoldsOn_sound", "Frp.C07.model_h2cHoldsOn_checked",
+        # server-side tcpmux proxy: listener fields and the CONNECT check over all start/stop histories
+        "Frp.C07.tmListeners_fields", "Frp.C07.tmListeners_names", "Frp.C07.tmAgree_reach", "Frp.C07.tmProxy_sound",
+        "Frp.C07.tmHoldsOn_sound", "Frp.C07.model_tmHoldsOn",
     ],
+    "extra_targets": ["Frp.Props.C07Conn"],
     "engines": [
-        {"name": "httpauth", "quick_n": 5000, "thorough_n": 20000, "thorough_seeds": 5,
+        {"name": "httpauth", "quick_n": 6000, "thorough_n": 24000, "thorough_seeds": 5,
+         # one re-execution (the recorded h2c finding makes every run re-execute: keep that cheap)
+         "reruns": 1,
          "nontrivial": nontrivial,
          "result_class": result_class},
     ],
@@ -97,12 +121,23 @@ PROP = {
         "http_proxy plugin: net/http request framing on the work connection (keep-alive, hijack) is modelled as "
         "'one ServeHTTP call per request until a handler hijacks'; the first-7-bytes sniff assumes the request "
         "line arrives in one read",
+        "h2c: that golang.org/x/net/http2/h2c hands every later stream to the wrapped handler with a context derived "
+        "from the opening request's is modelled by hand (h2cStream) and tied by the differential run; the model is of "
+        "/repo HEAD (HttpAuth.h2cStreamsChecked = false), which VIOLATES the property for later streams "
+        "(KNOWN_FINDINGS C07-h2c-later-streams-unchecked, witness theorems); the repaired model "
+        "(h2cStreamsChecked = true, hooks/C07-fix-h2c-stream-auth.patch) was run against the patched tree",
+        "tcpmux proxy: BaseProxy / handleUserTCPConnection are not modelled; 'forwarded' is observed as the proxy's "
+        "GetWorkConnFn being called",
         "socks5 plugin: armon/go-socks5 ServeConn / authenticate / UserPassAuthenticator / StaticCredentials are "
         "modelled by hand (version, method selection, RFC 1929 sub-negotiation) and tied by the differential run; "
         "the request phase after authentication (address parsing, rules, dial) is not modelled",
     ],
     "assumptions": [
-        "h2c requests are not generated (HTTP/1.1 only)",
+        "h2c: streams are GET requests without body sent one after the other (no concurrent streams, no CONNECT "
+        "streams, no CONTINUATION frames); the HTTP/2 server's own request validation is modelled only as ':path does "
+        "not parse => RST_STREAM'",
+        "tcpmux proxies are run without loadBalancer.group (the group path hands the same RouteConfig to "
+        "TCPMuxGroupCtl.Listen; not driven) and with multiplexer = httpconnect, passthrough off",
         "web servers are driven with webServer.pprofEnable = false and without TLS; with pprofEnable = true "
         "pkg/util/http/server.go registerPprofHandlers puts /debug/pprof/* on the outer router, outside the auth "
         "middleware (not covered by the model, reported as an observation)",
@@ -112,7 +147,7 @@ PROP = {
 META = {
     "engine": "lean+harness(httpauth)",
     "design_ref": "DESIGN.md §6 C07",
-    "technique": "Lean 4 theorems over all route tables, request targets, request sequences, routers, methods, paths and header bytes (decision logic stated outright) + differential correspondence against the real ServeHTTP / tcpmux muxer / middleware / http_proxy, static_file and socks5 plugins / frps dashboard / frpc admin API over TCP",
-    "text": "Proof: for every route table and every request (origin/absolute form, CONNECT, any Authorization / Proxy-Authorization combination) the modelled ServeHTTP forwards to route r only if r is unprotected or the request presents exactly r's user name and password, and the route checked is the route forwarded to; same for the tcpmux CONNECT muxer. The statement is also proved at wire level (serveWire_sound: the target path is only percent-decoded; serve_forward_prefix: the route forwarded to is selected by that path as received, no dot-segment or empty-segment normalisation between check and forwarding). http_proxy plugin: the model is the dispatch of a whole work connection (Handle's CONNECT sniff -> handleConnectReq, otherwise the embedded server's ServeHTTP per request: Auth, then ConnectHandler / HTTPHandler); pluginHandle_sound proves for every request sequence that request i reaches a target only if request i itself carries the exact credentials, pluginHandle_refuses that every other request gets the 407 challenge or is refused and closed. Web endpoints (static_file plugin, frps dashboard, frpc admin API): the model runs from the header bytes to the handler — net/http parseBasicAuth (case-insensitive scheme, base64 decoding with the Lean base64 model, cut at the first colon), HTTPAuthMiddleware comparing the DECODED user and password, gorilla/mux ServeHTTP / Match (clean-path redirect, route loop, method mismatch, sub-routers, middlewares applied to matched routes only) and the three routers as frp builds them. middlewareHdr_sound / _complete: next runs iff the endpoint is unprotected or the header is 'Basic' (any case) + a base64 text that decodes to exactly user:password (a text that only resembles the expected one decodes to other bytes and is refused; two accepted headers decode to the same bytes); webServe_sound: for every router of the modelled shape, every method token, path and header a route handler runs only with exact credentials unless it was registered outside the middleware; staticFile_sound / staticFile_method: static_file has no such handler and only GET reaches the file handler (HEAD and everything else: the router's bare 405); dashboard_sound / admin_sound: everything but /healthz is behind the middleware. socks5 plugin: socks5_sound — with a user name or a password configured the target is dialled only after a user/password sub-negotiation carrying exactly both. The pinned tree violated the http-proxy clause (witness theorem serveOld_witness, replayed on the real code) and was repaired by /repo commit 015f090; the model is of the repaired code. Tie: 5000 generated ops per quick run against the real handlers over loopback TCP / pipes (request paths with dot / empty / percent-encoded segments against tables with protected non-default locations; ~100 multi-request work connections through the http_proxy plugin's Handle; ~1000 requests to the real static_file plugin, real frps dashboards and real frpc admin servers with generated methods, paths and raw Authorization lines; ~250 bare middleware calls; ~100 socks5 negotiations), with the Lean predicates (holdsOnWire, plHoldsOn, webHoldsOn, mwHoldsOn, s5HoldsOn) evaluated on the implementation's answers.",
-    "note": "Trusted: Lean kernel; hand-written model of ServeHTTP/CheckAuth/injectRequestInfoToCtx/Muxer.handle/HTTPConnectTCPMuxer.auth/HTTPAuthMiddleware/HTTPProxy.Handle+ServeHTTP+handleConnectReq+Auth, of net/http parseBasicAuth + textproto trimming, of gorilla/mux matching for frp's router shapes, of go-socks5 authentication; net/url path unescape; observation of 'a handler answered' from status/body class; harness generators.",
+    "technique": "Lean 4 theorems over all route tables, request targets, request sequences, h2c stream sequences, tcpmux proxy start/stop histories, routers, methods, paths and header bytes (decision logic stated outright) + differential correspondence against the real ServeHTTP (HTTP/1.1 and h2c streams) / tcpmux muxer / server-side tcpmux proxy / middleware / http_proxy, static_file and socks5 plugins / frps dashboard / frpc admin API over TCP",
+    "text": "Proof: for every route table and every request (origin/absolute form, CONNECT, any Authorization / Proxy-Authorization combination) the modelled ServeHTTP forwards to route r only if r is unprotected or the request presents exactly r's user name and password, and the route checked is the route forwarded to; same for the tcpmux CONNECT muxer. The statement is also proved at wire level (serveWire_sound: the target path is only percent-decoded; serve_forward_prefix: the route forwarded to is selected by that path as received, no dot-segment or empty-segment normalisation between check and forwarding). http_proxy plugin: the model is the dispatch of a whole work connection (Handle's CONNECT sniff -> handleConnectReq, otherwise the embedded server's ServeHTTP per request: Auth, then ConnectHandler / HTTPHandler); pluginHandle_sound proves for every request sequence that request i reaches a target only if request i itself carries the exact credentials, pluginHandle_refuses that every other request gets the 407 challenge or is refused and closed. Web endpoints (static_file plugin, frps dashboard, frpc admin API): the model runs from the header bytes to the handler — net/http parseBasicAuth (case-insensitive scheme, base64 decoding with the Lean base64 model, cut at the first colon), HTTPAuthMiddleware comparing the DECODED user and password, gorilla/mux ServeHTTP / Match (clean-path redirect, route loop, method mismatch, sub-routers, middlewares applied to matched routes only) and the three routers as frp builds them. middlewareHdr_sound / _complete: next runs iff the endpoint is unprotected or the header is 'Basic' (any case) + a base64 text that decodes to exactly user:password (a text that only resembles the expected one decodes to other bytes and is refused; two accepted headers decode to the same bytes); webServe_sound: for every router of the modelled shape, every method token, path and header a route handler runs only with exact credentials unless it was registered outside the middleware; staticFile_sound / staticFile_method: static_file has no such handler and only GET reaches the file handler (HEAD and everything else: the router's bare 405); dashboard_sound / admin_sound: everything but /healthz is behind the middleware. socks5 plugin: socks5_sound — with a user name or a password configured the target is dialled only after a user/password sub-negotiation carrying exactly both. h2c: a connection turned into HTTP/2 (Upgrade: h2c or prior knowledge) is modelled as its opening request plus the list of later streams, each a request with its own :authority / :path / authorization; h2cConn_checked_sound proves for the repaired handler that every request of every such connection — the first and each stream — reaches a backend only with the exact credentials of the route selected by ITS OWN host, path and user (h2cStream_checked_same_route). /repo HEAD is modelled as it is (h2cConn_head_streams: every later stream is answered along the opening request's route) and VIOLATES the clause: h2cHead_witness / h2cHeadFull_fails (a stream without credentials reaches the protected backend on a connection opened with them), h2cHead_misroute_witness (a stream for another host is answered by the opening request's backend); what holds there is h2cConn_head_partial; recorded as KNOWN_FINDINGS C07-h2c-later-streams-unchecked with the repair hooks/C07-fix-h2c-stream-auth.patch (switch: HttpAuth.h2cStreamsChecked). Server-side tcpmux proxy: tmListeners_fields / tmListeners_names — every listener httpConnectRun registers (each non-empty custom domain, then subdomain.subDomainHost) has username = httpUser, password = httpPassword, routeByHTTPUser = routeByHTTPUser; tmProxy_sound — after ANY history of proxies started (with roll-back on a refused domain) and closed on one muxer, a CONNECT is handed to a listener of a proxy configured with httpUser only if it carries exactly that proxy's httpUser and httpPassword. The pinned tree violated the http-proxy clause (witness theorem serveOld_witness, replayed on the real code) and was repaired by /repo commit 015f090; the model is of the repaired code. Tie: 6000 generated ops per quick run against the real handlers over loopback TCP / pipes (request paths with dot / empty / percent-encoded segments against tables with protected non-default locations; ~100 multi-request work connections through the http_proxy plugin's Handle; ~1000 requests to the real static_file plugin, real frps dashboards and real frpc admin servers with generated methods, paths and raw Authorization lines; ~250 bare middleware calls; ~100 socks5 negotiations; ~300 h2c connections of which ~100 are upgraded and carry ~250 further streams; ~10 bursts of real tcpmux proxy starts / stops with ~250 real CONNECT requests and ~40 listener dumps), with the Lean predicates (holdsOnWire, plHoldsOn, webHoldsOn, mwHoldsOn, s5HoldsOn, h2cHoldsOn, tmHoldsOn) evaluated on the implementation's answers.",
+    "note": "Trusted: Lean kernel; hand-written model of ServeHTTP/CheckAuth/injectRequestInfoToCtx/h2c stream dispatch/TCPMuxProxy.httpConnectRun+Muxer.Listen/Muxer.handle/HTTPConnectTCPMuxer.auth/HTTPAuthMiddleware/HTTPProxy.Handle+ServeHTTP+handleConnectReq+Auth, of net/http parseBasicAuth + textproto trimming, of gorilla/mux matching for frp's router shapes, of go-socks5 authentication; net/url path unescape; observation of 'a handler answered' from status/body class; harness generators.",
 }
